@@ -79,7 +79,7 @@ def main():
                 meta = json.load(open(os.path.join(src, 'meta.json')))
             except Exception:
                 pass
-            meta.update(property=prop, round=3,
+            meta.update(property=prop, round=int(sys.argv[2]) if len(sys.argv) > 2 else 3,
                         confirmed_in_scratch_worktree=dict(tests=res['tests_with_change'], demo_exit_with_change=res['demo_changed_exit'],
                                                            demo_exit_without=res['demo_clean_exit']),
                         ran='harness/mutants.py: patch applied to a scratch worktree of /repo, `VERIF_REPO=<worktree> ./check <prop> quick` in a scratch copy of /verif, both removed afterwards')
